@@ -501,7 +501,7 @@ func (P *Prover) condFacts(cond ssa.Value, truth bool) []Poly {
 		}
 	case *ssa.Extract:
 		// ok := helper(...) : facts that hold at every return of the helper where that result is `truth`
-		if call, isCall := c.Tuple.(*ssa.Call); isCall {
+		if call, isCall := c.Tuple.(*ssa.Call); isCall && !P.inPost {
 			return P.calleePost(call, c.Index, truth)
 		}
 	}
